@@ -322,7 +322,8 @@ func logsloglevel2Level(level logslog.Level) Level {
 	case LevelPanic:
 		return PanicLevel
 	}
-	return FatalLevel
+	// any other value: never a terminating severity (as the log/slog handler does)
+	return convertLogSlogLevel(level)
 }
 
 // mLevelIsEnabledAs is a replacement table of two levels.
